@@ -19,6 +19,7 @@ import c19_regex
 import gal
 import yaql
 from yaql.language import exceptions as yexc
+from yaql.language import specs
 
 GEN = ["casemap"]
 RULE = ("strings over {a,b,c,' '} (length <= 7) plus Unicode samples (astral, combining, non-ASCII white space, "
@@ -908,7 +909,13 @@ def run_regex(rc):
     """Canonical observation of the implementation."""
     try:
         e, d = regex_expr(rc)
-        v = ev(e, d)
+        return canon_regex_value(rc, ev(e, d))
+    except Exception as e:
+        return ("foreign", type(e).__name__)
+
+
+def canon_regex_value(rc, v):
+    try:
         fn = rc["fn"]
         if fn == "matches":
             return ("bool", v) if isinstance(v, bool) else ("foreign", repr(v))
@@ -1413,9 +1420,9 @@ def quota_calls(rng, q, quick):
             counts = {th - 1, th, th + 1, th // 2}
         for n in sorted(counts):
             out.append(("mul", left, n, n % 2))
-    if q <= 1000:
+    if q <= (600 if quick else 1000):
         # long ASCII texts whose own size sweeps the quota: the argument, or the result, is what does or does not fit
-        for size in range(q - 3, q + 3):
+        for size in (range(q - 2, q + 2) if quick else range(q - 3, q + 3)):
             n = size - empty
             text = ("ab " * n)[:n]
             out += [("upper", text), ("trim", text, None), ("substring", text, 0, None), ("replace", text, "b", "b", None),
@@ -1599,6 +1606,365 @@ def use_laws(run, rep, rng):
                              "observed": v, "required": required, "raw": raw, "found_by": "O"})
 
 
+# ---------------------------------------------------------------------------------
+# injected delegates: functions that take the context's `str` (Delegate) must use the function VISIBLE IN THE
+# CALLING CONTEXT, in every spelling - run in a child context whose host registers its own `str`
+# ---------------------------------------------------------------------------------
+def host_str(value):
+    if value is None:
+        return ""
+    if value is True:
+        return "yes"
+    if value is False:
+        return "no"
+    return str(value)
+
+
+_override_ctx = None
+
+
+def override_context():
+    """The default library with a host `str` registered in a child context."""
+    global _override_ctx
+    if _override_ctx is None:
+        ev("1", None)
+        child = _ctx.create_child_context()
+
+        @specs.parameter("value", nullable=True)
+        def str_(value):
+            return host_str(value)
+
+        child.register_function(str_, name="str")
+        _override_ctx = child
+    return _override_ctx
+
+
+def ev_in(ctx, expr, data):
+    ev("1", None)
+    pe = _parsed.get(expr)
+    if pe is None:
+        pe = _parsed[expr] = _engine(expr)
+    return pe.evaluate(data=data, context=ctx)
+
+
+def delegate_users():
+    """From the live registry: (yaql name, payload name, delegated function) for every strings/regex function
+    with an injected Delegate / Super parameter."""
+    from yaql.language import yaqltypes as yt
+    ev("1", None)
+    out, c = [], _ctx
+    while c is not None:
+        for name, fds in getattr(c, "_functions", {}).items():
+            for fd in fds:
+                mod = getattr(fd.payload, "__module__", "")
+                if not (mod.endswith("standard_library.strings") or mod.endswith("standard_library.regex")):
+                    continue
+                for prm in fd.parameters.values():
+                    vt = prm.value_type
+                    if isinstance(vt, (yt.Delegate, yt.Super)):
+                        out.append((name, fd.payload.__name__, getattr(vt, "name", None) or "super"))
+        c = c.parent
+    return sorted(set(out))
+
+
+COVERED_DELEGATE_USERS = {("join", "join", "str"), ("join", "join_", "str"), ("replace", "replace_with_dict", "str")}
+
+
+def conv_expr(call):
+    fn = call[0]
+    if fn == "joinConv":
+        _, host, l, x, form = call
+        return ["$.l.join($.x)", "$.x.join($.l)", "$.l.select($).join($.x)", "$.x.join($.l.select($))"][form], {"l": list(l), "x": x}
+    if fn == "replaceDictConv":
+        _, host, s_, items, k = call
+        return "$.s.replace($.d, $.k)", {"s": s_, "d": dict(items), "k": k}
+    if fn == "strConv":
+        return "str($.v)", {"v": call[2]}
+    raise ValueError(call)
+
+
+def conv_term(call):
+    fn, host = call[0], gal.boolean(call[1])
+    if fn == "joinConv":
+        return gal.app("KJoinConv", host, gal.lst(scal(v) for v in call[2]), gal.s(call[3]))
+    if fn == "replaceDictConv":
+        return gal.app("KReplaceDictConv", host, gal.s(call[2]), gal.lst(gal.pair(scal(k), scal(v)) for k, v in call[3]), gal.z(call[4]))
+    return gal.app("KStrConv", host, scal(call[2]))
+
+
+def conv_ref(call):
+    f = host_str if call[1] else ref_str
+    if call[0] == "joinConv":
+        return ("str", ref_join([f(v) for v in call[2]], call[3]))
+    if call[0] == "replaceDictConv":
+        s_ = call[2]
+        for k, v in call[3]:
+            s_ = ref_replace(s_, f(k), f(v), call[4])
+        return ("str", s_)
+    return ("str", f(call[2]))
+
+
+def delegate_cases(run, rep, rng):
+    users = delegate_users()
+    for u in users:
+        run.count("delegate-user:%s/%s<-%s" % u)
+        if u not in COVERED_DELEGATE_USERS:
+            run.cov["uncovered"].append("function %s (%s) takes the delegate %r but has no override-context cases" % u)
+    calls = [("joinConv", True, (True, None, 3, "a"), ",", f) for f in range(4)]
+    for _ in range(run.n(500, 6000)):
+        host = rng.random() < 0.7
+        r = rng.random()
+        if r < 0.6:
+            calls.append(("joinConv", host, tuple(rscalar(rng) for _ in range(rng.randrange(0, 5))), rstr(rng, 2), rng.randrange(4)))
+        elif r < 0.9:
+            items, seen, s_ = [], [], rstr(rng) + rng.choice(["", "null", "true1", "no yes"])
+            for _ in range(rng.randrange(0, 4)):
+                k = rsub(rng, s_) if rng.random() < 0.5 else rscalar(rng)
+                if any(k == q_ for q_ in seen) or host_str(k) == "" or ref_str(k) == "":
+                    continue
+                seen.append(k)
+                items.append((k, rscalar(rng)))
+            calls.append(("replaceDictConv", host, s_, tuple(items), rng.choice([-1, -1, 1, 2])))
+        else:
+            calls.append(("strConv", host, rscalar(rng)))
+    terms, meta = [], []
+    for call in calls:
+        e, d = conv_expr(call)
+        try:
+            v = ev_in(override_context() if call[1] else _ctx, e, d)
+            obs = ("str", v) if type(v) is str else ("foreign", "unexpected result %r" % (v,))
+        except Exception as ex:
+            obs = ("foreign", type(ex).__name__)
+        run.case(("conv", call), nontrivial=call[1])
+        run.count("fn:%s[%s str]" % (call[0], "host" if call[1] else "default"))
+        terms.append("(%s, %s)" % (conv_term(call), res_term(obs)))
+        meta.append((call, obs, e, d))
+    for i in run.coq_mismatches(HEADER, "case", "case_ok", terms, shard=400):
+        call, obs, e, d = meta[i]
+        req = conv_ref(call)
+        data = {"kind": "delegate", "call": list(call), "expression": e, "data": d, "context": "child context registering a host str()" if call[1] else "default",
+                "observed": list(obs), "required": list(req), "found_by": "C"}
+        if tuple(req) != tuple(obs):
+            rep.add("violation", "%s: the elements are not converted with the str function visible in the calling context (%s)" % (
+                {"joinConv": "join [%s]" % ["seq.join(sep)", "sep.join(seq)", "lazy seq.join(sep)", "sep.join(lazy seq)"][call[4]] if call[0] == "joinConv" else "",
+                 "replaceDictConv": "replace(dict)", "strConv": "str()"}[call[0]], "raises" if obs[0] == "foreign" else "wrong value"), data)
+        else:
+            rep.add("mismatch", "Model/Strings.v conv model and strings.py disagree on %s" % call[0], data)
+    rep.flush()
+
+
+# ---------------------------------------------------------------------------------
+# host string kinds: string operands delivered as instances of str SUBCLASSES (as $ data with conversion on / off,
+# as context variable, as host function result); the functions work on the TEXT (str(value)) and return plain str
+# ---------------------------------------------------------------------------------
+def _loud(name):
+    plain = getattr(str, name)
+
+    def method(self, *a, **kw):
+        r = plain(self, *a, **kw)
+        if isinstance(r, str):
+            return Loud("<" + str.__str__(r) + ">")
+        if isinstance(r, list):
+            return [Loud("<" + str.__str__(t) + ">") for t in r] + [Loud("!")]
+        if isinstance(r, bool):
+            return not r
+        if isinstance(r, int):
+            return r + 100
+        return r
+    method.__name__ = name
+    return method
+
+
+class Loud(str):
+    """Every str method the implementations are likely to call answers visibly differently."""
+    __slots__ = ()
+
+
+for _n in ("split", "rsplit", "replace", "strip", "lstrip", "rstrip", "upper", "lower", "join", "__add__", "__mul__", "__rmul__",
+           "__getitem__", "__contains__", "find", "rfind", "startswith", "endswith", "__len__", "__lt__", "__le__", "__gt__", "__ge__"):
+    setattr(Loud, _n, _loud(_n))
+
+
+def _mk_escape(text):
+    if isinstance(text, Markup):
+        return text
+    out = str(text)
+    for a, b in (("&", "&amp;"), ("<", "&lt;"), (">", "&gt;"), ("a", "&a;"), (" ", "&sp;")):
+        out = str.replace(out, a, b)
+    return Markup(out)
+
+
+def _escaping(name):
+    plain = getattr(str, name)
+
+    def method(self, *args):
+        args = [_mk_escape(a) if isinstance(a, str) else a for a in args]
+        r = plain(self, *args)
+        if isinstance(r, str):
+            return Markup(r)
+        if isinstance(r, list):
+            return [Markup(t) for t in r]
+        return r
+    method.__name__ = name
+    return method
+
+
+class Markup(str):
+    """markupsafe.Markup-like: methods escape their string arguments (here also 'a' and ' ') and return Markup."""
+    __slots__ = ()
+
+    def join(self, items):
+        return Markup(str.join(self, [_mk_escape(t) for t in items]))
+
+
+for _n in ("replace", "strip", "lstrip", "rstrip", "split", "rsplit", "upper", "lower", "__getitem__", "__mul__", "__add__",
+           "find", "rfind", "startswith", "endswith", "__contains__"):
+    setattr(Markup, _n, _escaping(_n))
+
+
+class Message(str):
+    """A lazily translated message: the buffer is a message id, str() gives the text."""
+
+    def __new__(cls, text):
+        o = str.__new__(cls, "msgid:" + text[::-1])
+        o._text = text
+        return o
+
+    def __str__(self):
+        return self._text
+
+
+HOST_KINDS = [("Loud", Loud), ("Markup", Markup), ("Message", Message)]
+HOST_MODES = ["data", "data-noconvert", "ctxvar", "hostfn"]
+
+
+def wrap_strings(v, cls):
+    if type(v) is str:
+        return cls(v)
+    if isinstance(v, (list, tuple)):
+        return type(v)(wrap_strings(x, cls) for x in v)
+    if isinstance(v, dict):
+        return {wrap_strings(k, cls): wrap_strings(x, cls) for k, x in v.items()}
+    return v
+
+
+def has_string(v):
+    if type(v) is str:
+        return True
+    if isinstance(v, (list, tuple)):
+        return any(has_string(x) for x in v)
+    if isinstance(v, dict):
+        return any(has_string(k) or has_string(x) for k, x in v.items())
+    return False
+
+
+def host_eval(expr, data, cls, mode):
+    """Evaluate the expression with every string operand of `data` delivered as an instance of cls."""
+    w = {k: wrap_strings(v, cls) for k, v in data.items()}
+    if mode == "data":
+        return ev(expr, w)
+    if mode == "data-noconvert":
+        return ev_on((("yaql.convertInputData", False),), expr, w)
+    ev("1", None)
+    child = _ctx.create_child_context()
+    if mode == "ctxvar":
+        for k, v in w.items():
+            child["$hv_" + k] = v
+        return ev_in(child, re.sub(r"\$\.(\w+)", r"$hv_\1", expr), None)
+    if mode == "hostfn":
+        def hostval(name):
+            return w[name]
+        child.register_function(hostval)
+        return ev_in(child, re.sub(r"\$\.(\w+)", r"hostval(\1)", expr), None)
+    raise ValueError(mode)
+
+
+def strict_plain(v):
+    """The finalised value contains only plain str / list / scalars (no str subclass instance anywhere)."""
+    if isinstance(v, str):
+        return type(v) is str
+    if isinstance(v, (list, tuple)):
+        return all(strict_plain(x) for x in v)
+    if isinstance(v, dict):
+        return all(strict_plain(k) and strict_plain(x) for k, x in v.items())
+    return True
+
+
+def host_kind_cases(run, rep, rng):
+    combos = [(kn, kc, m) for kn, kc in HOST_KINDS for m in HOST_MODES]
+    terms, meta = [], []
+    fixed = [("split", "a<b<c", "<", None), ("trim", " a b ", None), ("replace", "a<b", "<", "a", None), ("upper", "ab"),
+             ("substring", "abcd", 1, 2), ("mul", "ab", 2, 0), ("mul", "ab", 2, 1), ("concat", ("a", "b"), 1), ("concat", ("a", "b"), 0),
+             ("join", ("a b", "c"), " ", 0), ("join", ("a b", "c"), " ", 1), ("toCharArray", "a b"), ("in", "a", "ba"),
+             ("indexOf", "ab a", "a", 1), ("startsWith", "ab", ("a",)), ("len", "a b"), ("cmp", "<", "a", "b"),
+             ("replaceDict", "a b", (("a", "b"),), None), ("norm", " a ", None), ("isEmpty", " ", True, None), ("rightSplit", "a b a", " ", 1)]
+    n = run.n(110, 1200)
+    for kn, kc, mode in combos:
+        calls = list(fixed) + [random_call(rng) for _ in range(n)]
+        for call in calls:
+            if call[0] in ("characters", "hex", "isRegex", "str", "isString"):
+                continue
+            e, d = expr_of(call)
+            if not has_string(d):
+                continue
+            try:
+                v = host_eval(e, d, kc, mode)
+                obs = canon(call[0], v) if strict_plain(v) else ("foreign", "result contains an instance of a str subclass: %r" % (v,))
+            except ValueError:
+                obs = ("err", 1)
+            except Exception as ex:
+                obs = ("foreign", type(ex).__name__)
+            run.case(("hostkind", kn, mode, call), nontrivial=True)
+            run.count("hostkind:%s/%s" % (kn, mode))
+            if call[0] in ("upper", "lower") and not call[1].isascii():
+                plain = run_call(call)
+                if obs != plain:
+                    judge_host_kind(rep, call, obs, plain, kn, mode, e, d)
+                continue
+            terms.append("(%s, %s)" % (call_term(call), res_term(obs)))
+            meta.append((call, obs, kn, mode, e, d))
+    for i in run.coq_mismatches(HEADER, "case", "case_ok", terms, shard=400):
+        call, obs, kn, mode, e, d = meta[i]
+        judge_host_kind(rep, call, obs, run_call(call), kn, mode, e, d)
+    # regex functions with the subject / pattern / replacement as host strings
+    for j in range(run.n(240, 3000)):
+        rc = random_regex_call(rng)
+        kn, kc, mode = combos[j % len(combos)]
+        if mode in ("ctxvar", "hostfn") and rc["fn"] in ("search", "searchAll", "replaceBy", "searchLazy", "searchAllLazy"):
+            mode = "data"               # their selectors use $-variables of their own
+        e, d = regex_expr(rc)
+        plain = run_regex(rc)
+        try:
+            saved = rc
+            v = host_eval(e, d, kc, mode)
+            obs = ("foreign", "result contains an instance of a str subclass") if not strict_plain(v) else None
+        except Exception as ex:
+            v, obs = None, ("foreign", type(ex).__name__)
+        if obs is None:
+            try:
+                obs = canon_regex_value(rc, v)
+            except Exception as ex:
+                obs = ("foreign", type(ex).__name__)
+        run.count("hostkind-regex:%s/%s" % (kn, mode))
+        if obs != plain:
+            rep.add("violation", "regex %s: with the subject/pattern delivered as a host string (str subclass) the result differs from that "
+                    "on the plain text" % rc["fn"],
+                    {"kind": "hostkind-regex", "call": rc, "host_class": kn, "delivery": mode, "expression": e, "data": d,
+                     "observed": list(obs), "required": list(plain), "found_by": "C"})
+    rep.flush()
+
+
+def judge_host_kind(rep, call, obs, plain, kn, mode, e, d):
+    data = {"kind": "hostkind", "call": list(call), "host_class": kn, "delivery": mode, "expression": e, "data": d,
+            "observed": list(obs), "required": list(plain), "found_by": "C"}
+    if obs != plain:
+        rep.add("violation", "%s: with string operands delivered as host strings (str subclass instances) the result is not that on the "
+                "plain text, as plain str (%s)" % (call[0], "raises %s" % obs[1] if obs[0] == "foreign" and " " not in obs[1] else
+                                                   "subclass instance in the result" if obs[0] == "foreign" else "wrong value"), data)
+    else:
+        rep.add("mismatch", "%s: Model/Strings.v and strings.py disagree (host-string run)" % call[0], data)
+
+
 def corpus_extra(key):
     path = os.path.join(HERE, "corpus", "C19.json")
     if not os.path.exists(path):
@@ -1637,6 +2003,10 @@ def correspondence(run):
     quota_cases(run, rep, rng)
     # ---- kinds of the collection results: raw type before finalisation, finalised type per output option ----
     kind_cases(run, rep, rng)
+    # ---- functions with an injected delegate, in a context whose host overrides the delegated function ----
+    delegate_cases(run, rep, rng)
+    # ---- string operands delivered as instances of str subclasses ----
+    host_kind_cases(run, rep, rng)
     # ---- regex ----
     rcalls = [fix_regex_call(r) for r in cr]
     for pat in FIXED_PATTERNS:
@@ -1861,6 +2231,40 @@ def replay(run, data):
             t = [ecase_term(rc, obs)]
             return not run.coq_mismatches(HEADER, "ecase", "ecase_ok", t) or bool(run.coq_mismatches(HEADER, "ecase", "ecase_fuel_ok", t))
         return True
+    if kind == "delegate":
+        call = d["call"]
+        call = tuple([call[0], call[1], tuple(call[2]) if call[0] == "joinConv" else call[2]] +
+                     ([tuple((k, v) for k, v in call[3])] + call[4:] if call[0] == "replaceDictConv" else call[3:]))
+        e, dd = conv_expr(call)
+        try:
+            v = ev_in(override_context() if call[1] else (ev("1", None), _ctx)[1], e, dd)
+            obs = ("str", v) if type(v) is str else ("foreign", repr(v))
+        except Exception as ex:
+            obs = ("foreign", type(ex).__name__)
+        req = conv_ref(call)
+        log_replay(e, dd, obs, req)
+        return tuple(req) == tuple(obs)
+    if kind in ("hostkind", "hostkind-regex"):
+        kc = dict(HOST_KINDS)[d["host_class"]]
+        if kind == "hostkind":
+            call = detuple_call(d["call"])
+            e, dd = expr_of(call)
+            plain = run_call(call)
+            cz = lambda v: canon(call[0], v)
+        else:
+            rc = fix_regex_call(d["call"])
+            e, dd = regex_expr(rc)
+            plain = run_regex(rc)
+            cz = lambda v: canon_regex_value(rc, v)
+        try:
+            v = host_eval(e, dd, kc, d["delivery"])
+            obs = cz(v) if strict_plain(v) else ("foreign", "result contains an instance of a str subclass: %r" % (v,))
+        except ValueError:
+            obs = ("err", 1)
+        except Exception as ex:
+            obs = ("foreign", type(ex).__name__)
+        print("replay: %s with %s operands delivered as %s: observed %r required %r" % (e, d["host_class"], d["delivery"], obs, plain), flush=True)
+        return obs == plain
     if kind == "quota":
         call = detuple_call(d["call"])
         o = d["options"]
